@@ -253,6 +253,16 @@ class FastParetoOptimalAlgorithm(BaseParetoOptimalAlgorithm):
     cross_check = self.is_pareto_optimal_against(
         lower_array, higher_array, strict=True)
     lower_pareto = lower_pareto & cross_check
+    # The split is by index, not by value: points of the lower half that share
+    # the boundary value of the first coordinate can dominate points of the
+    # higher half with that same first coordinate.
+    boundary_value = higher_array[0, 0]
+    tied_lower = lower_array[lower_array[:, 0] == boundary_value]
+    if len(tied_lower):
+      tied_higher = higher_array[:, 0] == boundary_value
+      higher_pareto[tied_higher] &= self.is_pareto_optimal_against(
+          higher_array[tied_higher], tied_lower, strict=True
+      )
 
     is_optimal = np.zeros(len(points), dtype=bool)
     is_optimal[ascending_indices[:split_index]] = lower_pareto
